@@ -94,6 +94,26 @@ pub fn plain_alphabets(bits: u32) -> Vec<Alpha> {
     v
 }
 
+/// interpreter lanes: alphabets that are realised from the element type's own width (`Top`, `Pow2`) or that name
+/// wide values explicitly are folded into `bits` bits, so that the depth cap of the Tiny scale really bounds the tree
+fn cap_alpha(a: Alpha, bits: u32) -> Alpha {
+    let tmax = type_max(bits);
+    match a {
+        Alpha::Top(k) => Alpha::Explicit((0..k as u128).map(|j| tmax - j.min(tmax)).collect()),
+        Alpha::Pow2 => Alpha::Explicit(std::iter::once(0u128).chain((0..bits.min(128)).map(|j| 1u128 << j)).collect()),
+        Alpha::Holes { k, max } => Alpha::Holes { k, max: max.min(tmax) },
+        Alpha::DenseFrom(lo, k) => Alpha::DenseFrom(lo.min(tmax.saturating_sub(k as u128)), k),
+        Alpha::Explicit(v) => {
+            let mut w: Vec<u128> = v.into_iter().map(|x| x.min(tmax)).collect();
+            w.sort_unstable();
+            w.dedup();
+            Alpha::Explicit(w)
+        }
+        Alpha::Single(v) => Alpha::Single(v.min(tmax)),
+        other => other,
+    }
+}
+
 const DISTS: [fn() -> Dist; 6] = [
     || Dist::Uniform,
     || Dist::Zipf,
@@ -122,7 +142,7 @@ pub fn plain_tree_specs(scale: Scale, tier: Tier, bits: u32, seed: u64) -> Vec<S
     // interpreters, quick tier: keep the trees shallow (a 64-level tree costs minutes under Miri);
     // wide values are the business of the native lanes and of the thorough tier
     let bits = if scale == Scale::Tiny { bits.min(if tier == Tier::Quick { 20 } else { 40 }) } else { bits };
-    let alphas = plain_alphabets(bits);
+    let alphas: Vec<Alpha> = if scale == Scale::Tiny { plain_alphabets(bits).into_iter().map(|a| cap_alpha(a, bits)).collect() } else { plain_alphabets(bits) };
     let mut out = Vec::new();
     let mut k = rng.usize_below(1000);
     // (1) every boundary length, alphabets/distributions/layouts rotated
